@@ -35,7 +35,20 @@ TraceNew ==
      IN /\ store' = (e.h :> o) @@ store
         /\ Report(e, Failing({
              <<"C01.raised", e.exc = "">>,
-             <<"C01.new_state", e.exc # "" \/ ObjOfRec(e.post) = o>>}))
+             <<"C01.new_state", e.exc # "" \/ ObjOfRec(e.post) = o>>,
+             (* beyond the listed property: size / ratio accessors, equality                   *)
+             <<"EXT.size_accessors", e.exc # "" \/ ~("sizes" \in DOMAIN e) \/
+                  LET z == e.sizes IN
+                  /\ z.nb_hard_pos = Len(o.pos) /\ z.nb_hard_neg = Len(o.neg)
+                  /\ z.nb_hard_samples = Len(o.pos) + Len(o.neg)
+                  /\ z.nb_all_pos = NPos(o) /\ z.nb_all_neg = NNeg(o) /\ z.nb_all_samples = NPos(o) + NNeg(o)
+                  /\ z.nb_easy_samples = o.ep + o.en>>,
+             <<"EXT.ratio_accessors", e.exc # "" \/ ~("ratios" \in DOMAIN e) \/ DOMAIN e.ratios = {} \/
+                  LET q == e.ratios  all == NPos(o) + NNeg(o) IN
+                  /\ REq(q.hard_pos_ratio, R(Len(o.pos), NPos(o))) /\ REq(q.hard_neg_ratio, R(Len(o.neg), NNeg(o)))
+                  /\ REq(q.easy_pos_ratio, R(o.ep, NPos(o))) /\ REq(q.easy_neg_ratio, R(o.en, NNeg(o)))
+                  /\ REq(q.easy_ratio, R(o.ep + o.en, all)) /\ REq(q.hard_ratio, R(Len(o.pos) + Len(o.neg), all))>>,
+             <<"EXT.equality", e.exc # "" \/ ~("eq_twin" \in DOMAIN e) \/ (e.eq_twin /\ e.neq_other)>>}))
 
 (* An object that the library itself produced (e.g. a bootstrap sample) is   *)
 (* adopted as it reports itself: the multiset of its own pos/neg scores.  Its *)
